@@ -103,7 +103,8 @@ func genVal(r *vc.Rng, f string, nullChance int) val {
 // ------------------------------------------------------------------ query AST
 
 type filt struct {
-	op   string // T eq ne gt ge lt le in nin and or not
+	mode int    // _like family: 0 equal, 1 contains, 2 ends with, 3 starts with
+	op   string // T eq ne gt ge lt le in nin like nlike ilike nilike and or not
 	f    string
 	v    val
 	vs   []val
@@ -118,6 +119,8 @@ func (x *filt) tok() string {
 		return x.op + "(" + x.a.tok() + "," + x.b.tok() + ")"
 	case "not":
 		return "not(" + x.a.tok() + ")"
+	case "like", "nlike", "ilike", "nilike":
+		return x.op + ":" + x.f + ":" + strconv.Itoa(x.mode) + vc.Hex([]byte(x.v.s))
 	case "in", "nin":
 		var p []string
 		for _, v := range x.vs {
@@ -137,6 +140,18 @@ func (x *filt) gql() string {
 		return "{_" + x.op + ": [" + x.a.gql() + ", " + x.b.gql() + "]}"
 	case "not":
 		return "{_not: " + x.a.gql() + "}"
+	case "like", "nlike", "ilike", "nilike":
+		pat := x.v.s
+		switch x.mode {
+		case 1:
+			pat = "%" + pat + "%"
+		case 2:
+			pat = "%" + pat
+		case 3:
+			pat = pat + "%"
+		}
+		b, _ := json.Marshal(pat)
+		return "{" + x.f + ": {_" + x.op + ": " + string(b) + "}}"
 	case "in", "nin":
 		var p []string
 		for _, v := range x.vs {
@@ -164,7 +179,15 @@ func genFilt(r *vc.Rng, depth int) *filt {
 	if fieldKinds[f] == "i" || fieldKinds[f] == "f" {
 		ops = append(ops, "gt", "ge", "lt", "le", "gt", "ge", "lt", "le")
 	}
+	if fieldKinds[f] == "s" {
+		ops = append(ops, "like", "nlike", "ilike", "nilike")
+	}
 	op := ops[r.Intn(len(ops))]
+	if strings.HasSuffix(op, "like") {
+		// patterns without inner % signs; mode 0 needs a pattern that is not a single % form
+		pats := []string{"a", "b", "ab", "z", "B", "zz"}
+		return &filt{op: op, f: f, mode: r.Intn(4), v: val{k: "s", s: pats[r.Intn(len(pats))]}}
+	}
 	if op == "in" || op == "nin" {
 		n := 1 + r.Intn(3)
 		x := &filt{op: op, f: f}
